@@ -77,3 +77,21 @@ func GoodMarkOneLoop(have map[int]bool, x []int) int {
 	}
 	return len(x) - seen
 }
+
+// BadCompareBySubtraction orders by the sign of a difference.
+func BadCompareBySubtraction(a, b []int) int {
+	i, j, common := 0, 0, 0
+	for i < len(a) && j < len(b) {
+		d := a[i] - b[j]
+		if d == 0 {
+			common++
+			i++
+			j++
+		} else if d > 0 {
+			j++
+		} else {
+			i++
+		}
+	}
+	return common
+}
